@@ -96,7 +96,10 @@ Fixpoint xrun (h : list call) (x : xstate) : xstate * list (list output) :=
 (* ---- the XML scanner at token granularity (osmxml/scanner.go Scan loop): the context is tested
    before EVERY decoder.Token(); cancellation may arrive from another goroutine between any two
    steps.  [xt_percall = true] is the variant that tests the context once per Scan call only. ---- *)
-Inductive xtok := XObj (v : obj) | XSkip.     (* a start element that yields an object | any other token *)
+Inductive xtok :=
+| XObj (v : obj)   (* a start element of an object kind: Token() and DecodeElement of the WHOLE element succeed *)
+| XBad (e : err)   (* such an element whose DecodeElement (or a Token) fails with e *)
+| XSkip.           (* any other top-level token *)
 Inductive xpc := XIdle | XCheck | XRead.
 Record xts := mkXT { xt_toks : list xtok; xt_err : err; xt_closed : bool; xt_ctx : bool; xt_pc : xpc;
                      xt_delivered : list obj; xt_tac : nat (* ghost: tokens read after the context was cancelled *) }.
@@ -135,9 +138,21 @@ Definition xtstep (percall : bool) (l : xlabel) (x : xts) : option (xts * list o
           | [] => Some (mkXT [] eEOF (xt_closed x) (xt_ctx x) XIdle (xt_delivered x) tac, [OScan false 0%Z])
           | XSkip :: r => Some (mkXT r (xt_err x) (xt_closed x) (xt_ctx x) (if percall then XRead else XCheck) (xt_delivered x) tac, [])
           | XObj v :: r => Some (mkXT r (xt_err x) (xt_closed x) (xt_ctx x) XIdle (xt_delivered x ++ [v]) tac, [OScan true v])
+          | XBad e :: r => Some (mkXT r e (xt_closed x) (xt_ctx x) XIdle (xt_delivered x) tac, [OScan false 0%Z])
           end
       end
   end.
+
+(* specification of a token list: the objects before the first failing element, and how it ends *)
+Fixpoint xt_expected (l : list xtok) : list obj :=
+  match l with XObj v :: r => v :: xt_expected r | XSkip :: r => xt_expected r | _ => [] end.
+Fixpoint xt_final (l : list xtok) : err :=
+  match l with XObj _ :: r | XSkip :: r => xt_final r | XBad e :: _ => e | [] => eEOF end.
+Fixpoint xt_wf (l : list xtok) : bool :=
+  match l with [] => true | XBad e :: r => is_err e && xt_wf r | _ :: r => xt_wf r end.
+Definition xt_err_value (x : xts) : err :=
+  if Z.eqb (xt_err x) eEOF then 0%Z else if is_err (xt_err x) then xt_err x
+  else if xt_closed x then eClosed else if xt_ctx x then eCtx else 0%Z.
 
 Fixpoint xtrun (percall : bool) (sched : list xlabel) (x : xts) : xts * list output :=
   match sched with
